@@ -270,6 +270,28 @@ def array_cases(rng, n, ctx, classes):
     return cases
 
 
+def twin_cases(rng, n, ctx):
+    """successive operations on irregular lists that agree in length, first and last configuration but differ in between
+    (nothing computed for one pair may be reused for its twin)"""
+    cases = []
+    for i in range(n):
+        L = int(rng.integers(6, 12))
+        first, last = int(rng.integers(1, 5)), int(rng.integers(30, 40))
+
+        def irregular():
+            inner = sorted(rng.choice(np.arange(first + 1, last), size=L - 2, replace=False).tolist())
+            return [first] + [int(x) for x in inner] + [last]
+        pairs = [(irregular(), irregular()) for _ in range(3)]
+        for j, (ia, ib) in enumerate(pairs):
+            a = gen.make_obs(rng, [('A|r1', ia)], mean=1.3, sigma=0.03)
+            b = gen.make_obs(rng, [('A|r1', ib)], mean=0.8, sigma=0.03)
+            e = gen.node('add', gen.var(1), gen.node('mul', gen.var(1), gen.var(2)))
+            res = _call(lambda: gen.ev(e, [a, b], np))
+            cases.append(_case('twin-%03d-%d' % (i, j), 'expr', 'step', e, [a, b], res))
+            ctx.nontrivial.add(('twin', i, j))
+    return cases
+
+
 def run(ctx):
     rng = np.random.default_rng(ctx.seed)
     q = ctx.quick
@@ -282,4 +304,5 @@ def run(ctx):
     cases += table_cases(rng, ctx, classes[:3] if q else classes)
     cases += complex_cases(rng, 60 if q else 500, ctx, classes)
     cases += array_cases(rng, 70 if q else 500, ctx, classes)
+    cases += twin_cases(rng, 8 if q else 80, ctx)
     ctx.validate('DeriveTrace', cases)
